@@ -6,8 +6,8 @@ import (
 	"math/big"
 	"math/cmplx"
 
-	"github.com/tuneinsight/lattigo/v6/circuits/common/lintrans"
 	ckkslt "github.com/tuneinsight/lattigo/v6/circuits/ckks/lintrans"
+	"github.com/tuneinsight/lattigo/v6/circuits/common/lintrans"
 	"github.com/tuneinsight/lattigo/v6/core/rlwe"
 	"github.com/tuneinsight/lattigo/v6/schemes/ckks"
 
